@@ -132,50 +132,49 @@ class SVGPMF(SVGP):
     dist = "MeanFieldVariationalDistribution"
 
 
+class _BDModel(gpytorch.models.ApproximateGP):
+    def __init__(self, Z):
+        V = gpytorch.variational
+        bs = torch.Size([2])
+        vd = V.CholeskyVariationalDistribution(4)
+        vs = V.BatchDecoupledVariationalStrategy(self, Z, vd, learn_inducing_locations=True, mean_var_batch_dim=-1)
+        super().__init__(vs)
+        self.mean_module = gpytorch.means.ConstantMean(batch_shape=bs)
+        self.covar_module = gpytorch.kernels.ScaleKernel(gpytorch.kernels.RBFKernel(batch_shape=bs), batch_shape=bs)
+
+    def forward(self, x):
+        return gpytorch.distributions.MultivariateNormal(self.mean_module(x), self.covar_module(x))
+
+
 class SVGPBD(SVGP):
     name = "svgp_batch_decoupled"
 
     def build(self):
-        V = gpytorch.variational
-        Z = self.X[:4].clone()
-        bs = torch.Size([2])
-
-        class M(gpytorch.models.ApproximateGP):
-            def __init__(s):
-                vd = V.CholeskyVariationalDistribution(4)
-                vs = V.BatchDecoupledVariationalStrategy(s, Z, vd, learn_inducing_locations=True, mean_var_batch_dim=-1)
-                super().__init__(vs)
-                s.mean_module = gpytorch.means.ConstantMean(batch_shape=bs)
-                s.covar_module = gpytorch.kernels.ScaleKernel(gpytorch.kernels.RBFKernel(batch_shape=bs), batch_shape=bs)
-
-            def forward(s, x):
-                return gpytorch.distributions.MultivariateNormal(s.mean_module(x), s.covar_module(x))
-
-        m = M()
+        m = _BDModel(self.X[:4].clone())
         m.likelihood = gpytorch.likelihoods.GaussianLikelihood()
         return m
+
+
+class _LMCModel(gpytorch.models.ApproximateGP):
+    def __init__(self, Z, L, T):
+        V = gpytorch.variational
+        vd = V.CholeskyVariationalDistribution(4, batch_shape=torch.Size([L]))
+        vs = V.LMCVariationalStrategy(V.VariationalStrategy(self, Z, vd, learn_inducing_locations=True), num_tasks=T, num_latents=L, latent_dim=-1)
+        super().__init__(vs)
+        self.mean_module = gpytorch.means.ConstantMean(batch_shape=torch.Size([L]))
+        self.covar_module = gpytorch.kernels.ScaleKernel(gpytorch.kernels.RBFKernel(batch_shape=torch.Size([L])), batch_shape=torch.Size([L]))
+
+    def forward(self, x):
+        return gpytorch.distributions.MultivariateNormal(self.mean_module(x), self.covar_module(x))
 
 
 class LMC(SVGP):
     name = "lmc_multitask"
 
     def build(self):
-        V = gpytorch.variational
         L, T = 2, 3
         Z = self.X[:4].clone().unsqueeze(0).expand(L, 4, D).clone()
-
-        class M(gpytorch.models.ApproximateGP):
-            def __init__(s):
-                vd = V.CholeskyVariationalDistribution(4, batch_shape=torch.Size([L]))
-                vs = V.LMCVariationalStrategy(V.VariationalStrategy(s, Z, vd, learn_inducing_locations=True), num_tasks=T, num_latents=L, latent_dim=-1)
-                super().__init__(vs)
-                s.mean_module = gpytorch.means.ConstantMean(batch_shape=torch.Size([L]))
-                s.covar_module = gpytorch.kernels.ScaleKernel(gpytorch.kernels.RBFKernel(batch_shape=torch.Size([L])), batch_shape=torch.Size([L]))
-
-            def forward(s, x):
-                return gpytorch.distributions.MultivariateNormal(s.mean_module(x), s.covar_module(x))
-
-        m = M()
+        m = _LMCModel(Z, L, T)
         m.likelihood = gpytorch.likelihoods.MultitaskGaussianLikelihood(num_tasks=T)
         return m
 
